@@ -9,6 +9,7 @@ import (
 
 	"verifharness/internal/core"
 	"verifharness/internal/engine"
+	"verifharness/internal/sgen"
 )
 
 type kindRange struct{ lo, hi *big.Int }
@@ -349,10 +350,116 @@ func init() {
 				}
 			}
 		}
+		// the integer as a member of a DEFINITION that is also folded into an allOf (the merge reads the definition's
+		// node after the flag has rewritten it: listed finding K36)
+		for i, n := range cases {
+			if i%(stride*3) != 0 {
+				continue
+			}
+			lo, hi := n.eff()
+			if !within53(lo) || !within53(hi) {
+				continue
+			}
+			sch := M{"type": "object", "properties": M{"x": M{"allOf": []any{M{"$ref": "#/$defs/Base"}, M{"type": "object", "properties": M{"m": M{"type": "string"}}}}}, "y": M{"$ref": "#/$defs/Base"}},
+				"$defs": M{"Base": M{"type": "object", "properties": M{"v": n.schemaKeys("integer")}}}}
+			var docs []any
+			one := big.NewInt(1)
+			seen := map[string]bool{}
+			for _, b := range []*big.Int{lo, hi, big.NewInt(0), big.NewInt(-1), big.NewInt(127), big.NewInt(128), big.NewInt(255), big.NewInt(256), big.NewInt(-129), big.NewInt(65536)} {
+				if b == nil {
+					continue
+				}
+				for _, v := range []*big.Int{new(big.Int).Sub(b, one), b, new(big.Int).Add(b, one)} {
+					if seen[v.String()] || v.Cmp(kindRanges["int64"].lo) < 0 || v.Cmp(kindRanges["int64"].hi) > 0 {
+						continue
+					}
+					seen[v.String()] = true
+					docs = append(docs, M{"x": M{"v": json.Number(v.String())}}, M{"y": M{"v": json.Number(v.String())}})
+				}
+			}
+			lab := []string{"definition folded into allOf", "", "", "K36-region"}
+			on := baseCase("c15-flag-on", sch, docs, lab...)
+			on.Cfg.MinSizedInts = true
+			off := baseCase("c15-flag-off", sch, docs, lab...)
+			pcs = append(pcs, on, off)
+		}
+		// twins: two integer nodes that ask for the same Go type name, the first with bounds the flag turns into a
+		// narrower type, the second with what is left of them once the implied bounds are cleared, with fewer bounds
+		// or with none — told apart only by their descriptions (annotated=true) or by nothing else (annotated=false:
+		// the listed finding K35, the first node is rewritten in place before the second is compared with it)
+		type twin struct {
+			name          string
+			first, second M
+		}
+		twins := []twin{
+			{"0..255 / unbounded", M{"type": "integer", "minimum": 0, "maximum": 255}, M{"type": "integer"}},
+			{"0..65535 / unbounded", M{"type": "integer", "minimum": 0, "maximum": 65535}, M{"type": "integer"}},
+			{"-128..127 / unbounded", M{"type": "integer", "minimum": -128, "maximum": 127}, M{"type": "integer"}},
+			{"0..100 / max 100", M{"type": "integer", "minimum": 0, "maximum": 100}, M{"type": "integer", "maximum": 100}},
+			{"min 0 / unbounded", M{"type": "integer", "minimum": 0}, M{"type": "integer"}},
+			{"-32768..1000 / max 1000", M{"type": "integer", "minimum": -32768, "maximum": 1000}, M{"type": "integer", "maximum": 1000}},
+			{"0..255 / 0..255", M{"type": "integer", "minimum": 0, "maximum": 255}, M{"type": "integer", "minimum": 0, "maximum": 255}},
+			{"0..255 / 0..256", M{"type": "integer", "minimum": 0, "maximum": 255}, M{"type": "integer", "minimum": 0, "maximum": 256}},
+		}
+		twinVals := []int64{-40000, -32769, -129, -128, -1, 0, 100, 101, 127, 128, 255, 256, 1000, 1001, 65535, 65536, 100000}
+		for _, tw := range twins {
+			for _, annotated := range []bool{true, false} {
+				for _, way := range []string{"definitions", "nested-in-siblings", "definition-and-property"} {
+					for _, swap := range []bool{false, true} {
+						a, b := sgen.DeepCopy(tw.first).(M), sgen.DeepCopy(tw.second).(M)
+						if annotated {
+							a["description"], b["description"] = "the first of the two", "the second of the two"
+						}
+						if swap {
+							a, b = b, a
+						}
+						var sch M
+						var mk func(v int64) any
+						switch way {
+						case "definitions":
+							sch = M{"type": "object", "properties": M{"p": M{"$ref": "#/$defs/a-b"}, "q": M{"$ref": "#/$defs/a_b"}}, "$defs": M{"a-b": a, "a_b": b}}
+							mk = func(v int64) any { return M{"p": v, "q": v} }
+						case "nested-in-siblings":
+							sch = M{"type": "object", "properties": M{"a-b": M{"type": "object", "properties": M{"n": a}}, "a_b": M{"type": "object", "properties": M{"n": b}}}}
+							mk = func(v int64) any { return M{"a-b": M{"n": v}, "a_b": M{"n": v}} }
+						case "definition-and-property":
+							sch = M{"type": "object", "properties": M{"p": M{"type": "object", "properties": M{"n": b}}, "q": M{"$ref": "#/$defs/RootP"}}, "$defs": M{"RootP": M{"type": "object", "properties": M{"n": a}}}}
+							mk = func(v int64) any { return M{"p": M{"n": v}, "q": M{"n": v}} }
+						}
+						var docs []any
+						for _, v := range twinVals {
+							// one side at a time, so that the verdict is that side's
+							d := mk(v).(M)
+							for k := range d {
+								one := M{k: d[k]}
+								docs = append(docs, one)
+							}
+						}
+						region := "in-scope"
+						if !annotated {
+							region = "K35-region"
+						}
+						lab := []string{"twins " + tw.name, way, fmt.Sprintf("swap=%v", swap), region}
+						on := baseCase("c15-flag-on", sch, docs, lab...)
+						on.Cfg.MinSizedInts = true
+						off := baseCase("c15-flag-off", sch, docs, lab...)
+						pcs = append(pcs, on, off)
+					}
+				}
+			}
+		}
 		res := runCases(c, pcs)
 		for i := 0; i+1 < len(res); i += 2 {
 			on, off := res[i], res[i+1]
 			if on.RunsJ == nil || off.RunsJ == nil {
+				continue
+			}
+			if len(on.Case.Labels) == 4 && on.Case.Labels[3] == "K36-region" && knownListed(c, "K36-minsized-rewritten-node-merged") {
+				c.Count("c15", "K36 region (a definition with integer members folded into an allOf; judged by the listed witness)")
+				continue
+			}
+			if len(on.Case.Labels) == 4 && on.Case.Labels[3] == "K35-region" && knownListed(c, "K35-minsized-rewrites-compared-node") {
+				c.Count("c15", "K35 region (same-named integer twins told apart by their bounds only; judged by the listed witness)")
 				continue
 			}
 			for d := range on.DocJSON {
